@@ -326,7 +326,7 @@ def run(tier):
             if tag == 'long':
                 continue            # thousands of lines: the implementation and the direct oracle only (too large for a Coq literal run)
             if len(idxs) > budget.get(tag, 300):
-                idxs = sorted(r.sample(idxs, budget[tag]))
+                idxs = sorted(r.sample(idxs, budget.get(tag, 300)))
             pick += idxs
         terms = []
         for i in pick:
